@@ -23,6 +23,7 @@ RULE = ('FIT: every value shape in {scalar} + {1..4}^2 x every destination shape
         'scalar rules of operators, IF, IFS, SWITCH, IFERROR, IFNA, CONCATENATE, NOT, ABS, SIGN, INT, SQRT, LEN, UPPER, LOWER), '
         '(c) many-argument call == few-argument call. Non-trivial = >=2 non-scalar arguments of different orientation, or '
         'destination shape != result shape, or >=32 arguments; distinct by (function, argument shapes, destination, observation point).')
+RULE += (' FIT-WHOLE-ROWS: value shapes that do not truncate x destinations 1:1, 1:2, 3:3, 2:4 (16384 columns) x 5 observation points: shape, first six and last column.')
 ASSUMPTIONS = ['a 1x1 array or single-cell range behaves like a scalar in broadcasting and fitting',
                'incompatible shapes (two different non-1 row or column counts) are not generated: the repo raises BroadcastError '
                'and its own test_invalid pins that',
